@@ -548,6 +548,7 @@ class ObjectStore:
     def __init__(self):
         self.store: Dict[int, Any] = {}
         self.constructed: Set[int] = set()
+        self.executed: Set[int] = set()
 
     def set_constructed(self, identifier: int):
         self.constructed.add(identifier)
@@ -1627,9 +1628,12 @@ class ConfigInformation:
         processor = ConfigInformation.FromPython(context, objects=objects)
         last_object = processor(self.pyobject)
 
-        # Execute pre-tasks
-        for pre_task in processor.pre_tasks.values():
-            pre_task.execute()
+        # Execute pre-tasks (once, even when the object store is shared by
+        # several calls)
+        for key, pre_task in processor.pre_tasks.items():
+            if key not in processor.objects.executed:
+                processor.objects.executed.add(key)
+                pre_task.execute()
 
         return last_object
 
